@@ -372,6 +372,27 @@ func c03PipeStage(tok string, nw int, it obiiter.IBioSequence, flat []int) (obii
 }
 
 // random partition of ids first..first+n-1 into nb batches (sizes >= 0), Contract numbering 0..nb-1
+// c03ClassRuns renames the records (id -> 4*id + class) so that, in the order of the batch numbers, runs of l
+// consecutive records fall in the same class of the `distribute` classifier (id % 4)
+func c03ClassRuns(bs []c03Batch, l int) []c03Batch {
+	idx := make([]int, len(bs))
+	for i := range idx {
+		idx[i] = i
+	}
+	sort.SliceStable(idx, func(a, b int) bool { return bs[idx[a]].order < bs[idx[b]].order })
+	out := make([]c03Batch, len(bs))
+	p := 0
+	for _, i := range idx {
+		ids := make([]int, len(bs[i].ids))
+		for j, id := range bs[i].ids {
+			ids[j] = 4*id + (p/l)%4
+			p++
+		}
+		out[i] = c03Batch{bs[i].order, ids}
+	}
+	return out
+}
+
 func c03Partition(rng *rand.Rand, first, n, nb int) []c03Batch {
 	bs := make([]c03Batch, nb)
 	for i := range bs {
@@ -710,6 +731,9 @@ func (c03) Gen(rng *rand.Rand, tier string, emit func(string)) {
 			emit(fmt.Sprintf("worker w=%d | %s", 1+rng.Intn(4), c03Show(st)))
 		case 7:
 			emit(fmt.Sprintf("distribute %d | %s", size, c03Show(damage(st, true))))
+			// the same stream with runs of one class longer than an output batch (consecutive ids cycle through the
+			// four classes and never give two records of a class in a row: seeded C03-m8); no draw from the PRNG
+			emit(fmt.Sprintf("distribute %d | %s", size, c03Show(c03ClassRuns(st, size+1+nrec%3))))
 		case 8:
 			nb2 := rng.Intn(7)
 			if nrec > 0 && nb2 == 0 {
